@@ -15,6 +15,12 @@ Proof.
                 (fun b Hb => proj1 (bridge_fixed r0 h Hscope b Hb))
                 h (fs_init (LExcl r0)) [] (fc_init (LExcl r0))
                 (inv_init h r0) eq_refl (fcrel_init h r0) (fun b Hb => Hb)) as (H1 & H2 & H3).
-  cbv zeta. split; [|split]; [|exact H1|exact H3].
-  unfold c03_statement. cbn [root_lib]. exact H2.
+  cbv zeta. split; [|split; [|split]]; [|exact H1|exact H3|].
+  - unfold c03_statement. cbn [root_lib]. exact H2.
+  - intros k. exact (run_kept h r0 cfg Hnofail Hnew Hundo Hincl
+                (bridge_id r0 h Hscope) (bridge_uniq r0 h Hscope) (bridge_up r0 h Hscope) Hr0
+                (fun y Hy => proj2 (proj2 (bridge_fixed r0 h Hscope y Hy)))
+                (fun x Hx => proj1 (proj2 (bridge_fixed r0 h Hscope x Hx)))
+                (fun b Hb => proj1 (bridge_fixed r0 h Hscope b Hb))
+                k h (fs_init (LExcl r0)) [] (inv_init h r0) eq_refl (fun b Hb => Hb)).
 Qed.
